@@ -160,3 +160,35 @@ func verifHarness_C11_matchEquiv() {
 	verifCover("C11 match compared")
 	verifObserve("hit", got == rt)
 }
+
+var verifC11Encoded = [][2]string{ // decoded path, raw (escaped) path
+	{"/a b", "/a%20b"}, {"/a/b", "/a%2Fb"}, {"/x", ""}, {"/é", "/%C3%A9"}, {"/a%b", "/a%25b"},
+}
+
+// Matching uses the decoded URL path, or the escaped path when UseEncodedPath
+// is set.
+func verifHarness_C11_encodedPath() {
+	pair := verifC11Encoded[verifCfg()%len(verifC11Encoded)]
+	enc := verifChoice("useEncodedPath", 2) == 1
+	var r *Router
+	if enc {
+		r = New(UseEncodedPath)
+	} else {
+		r = New()
+	}
+	ran := ""
+	seenPath := ""
+	r.GET(pair[0], func(c *Context) { ran = "decoded"; seenPath, _ = c.SafeGet(CTXCurrentRoutePath).(string) })
+	if pair[1] != "" && pair[1] != pair[0] {
+		r.GET(pair[1], func(c *Context) { ran = "escaped"; seenPath, _ = c.SafeGet(CTXCurrentRoutePath).(string) })
+	}
+	req := verifRequest("GET", pair[0])
+	req.URL.RawPath = pair[1]
+	r.ServeHTTP(verifNewWriter(), req)
+	if enc && pair[1] != "" {
+		verifAssert(ran == "escaped" && seenPath == pair[1], "with UseEncodedPath the escaped path is matched")
+	} else {
+		verifAssert(ran == "decoded" && seenPath == pair[0], "by default the decoded path is matched")
+	}
+	verifCover("C11 encoded path")
+}
